@@ -165,3 +165,44 @@ class chunksfreeze_lower_once:
 
     def ensures(result, self, lowered):
         return {"frozen-layout": f_cm(result.get("chunks"), self.get("_chunks"))}
+
+
+@contract(f"{EXPR}::_chunks_match", spec="rank1", props=["C03", "C04", "C20"])
+class chunks_match_rank1:
+    """the layout comparison both barriers rely on: true exactly when the block sizes are equal (known sizes)"""
+    params = {"a": "tup:seq", "b": "tup:seq"}
+    result = "bool"
+
+    def requires(a, b):
+        return True
+
+    def ensures(result, a, b):
+        return {"equal-block-sizes": S.Iff(result, S.seq_equal(S.item(a, 0), S.item(b, 0)))}
+
+    def domain(tier, rng):
+        from contracts.slicing import chunkings
+        cs = [c for n, c in chunkings(5)]
+        for x in cs:
+            for y in cs:
+                yield {"a": (x,), "b": (y,)}
+
+
+@contract(f"{EXPR}::_chunks_match", spec="rank2", props=["C03", "C04", "C20"])
+class chunks_match_rank2:
+    params = {"a": "tup:seq,seq", "b": "tup:seq,seq"}
+    result = "bool"
+
+    def requires(a, b):
+        return True
+
+    def ensures(result, a, b):
+        return {"equal-block-sizes": S.Iff(result, S.And(S.seq_equal(S.item(a, 0), S.item(b, 0)),
+                                                         S.seq_equal(S.item(a, 1), S.item(b, 1))))}
+
+    def domain(tier, rng):
+        from contracts.slicing import chunkings
+        cs = [c for n, c in chunkings(3)]
+        for x in cs:
+            for y in cs:
+                yield {"a": (x, (2, 1)), "b": (y, (2, 1))}
+                yield {"a": ((1,), x), "b": ((1,), y)}
